@@ -12,7 +12,7 @@
    builtin.jq reduce/foreach bodies (C14_splits_rebuild, C14_gsub_identity) under [re_ordered]; test,
    capture, scan and termination are checked on the implementation only (regex stream of harness/c14). *)
 From Coq Require Import List ZArith NArith Bool.
-From Verif Require Import c13.Utf8 c13.Utf8Proofs c13.Jv c14.Pos c14.PosProofs.
+From Verif Require Import c13.Utf8 c13.Utf8Proofs c13.Jv c14.Pos c14.PosProofs c14.RegexProofs.
 Import ListNotations.
 
 (* length = explode | length, for every byte string *)
@@ -74,6 +74,29 @@ Theorem C14_match_slice :
 Proof. exact match_slice. Qed.
 Print Assumptions C14_match_slice.
 
+(* splits: the pieces interleaved with the global matches rebuild the subject, for any engine whose results
+   are aligned and ordered (successive matches do not overlap and lie inside the subject).
+   [splits], [weave] transcribe the foreach of builtin.jq; [reported] is what match reports. *)
+Theorem C14_splits_rebuild :
+  forall re : list N -> list N -> list N -> bool -> list (list Z),
+  (forall r f s g x, In x (re r f s g) -> alignedb s x = true) ->
+  (forall r f s g, orderedb s (re r f s g) = true) ->
+  forall r f s,
+    let rep := reported s (re r f s true) in
+    weave (splits s (map (fun t => (fst (fst t), snd (fst t))) rep)) (map snd rep) = s.
+Proof. exact splits_rebuild. Qed.
+Print Assumptions C14_splits_rebuild.
+
+(* sub / gsub: substituting every match (or the first one) by its own text returns the subject.
+   [sub_with] transcribes the reduce of builtin.jq for a replacement that yields one string per match. *)
+Theorem C14_gsub_identity :
+  forall re : list N -> list N -> list N -> bool -> list (list Z),
+  (forall r f s g x, In x (re r f s g) -> alignedb s x = true) ->
+  (forall r f s g, orderedb s (re r f s g) = true) ->
+  forall r f s g, sub_with s (reported s (re r f s g)) = s.
+Proof. exact gsub_identity. Qed.
+Print Assumptions C14_gsub_identity.
+
 (* non-vacuity: an aligned result on a subject with 2-, 3- and 4-byte characters and an ill-formed byte,
    including an empty match and a non-participating group; the conversion yields code point offsets *)
 Example C14_nonvacuous :
@@ -83,5 +106,9 @@ Example C14_nonvacuous :
     Some ({| m_offset := 2; m_length := 2; m_string := Some [226; 130; 172; 240; 159; 152; 128]%N |},
           [{| m_offset := 2; m_length := 1; m_string := Some [226; 130; 172]%N |};
            {| m_offset := -1; m_length := 0; m_string := None |}]) /\
-  str_length s = 6%Z /\ slice_string s (Some 1%Z) (Some (-1)%Z) = [195; 169; 226; 130; 172; 240; 159; 152; 128; 255]%N.
+  str_length s = 6%Z /\ slice_string s (Some 1%Z) (Some (-1)%Z) = [195; 169; 226; 130; 172; 240; 159; 152; 128; 255]%N /\
+  (* an ordered global result with empty matches: "é*" on the subject, flag g *)
+  orderedb s [[0; 0]; [1; 3]; [3; 3]; [6; 6]; [10; 10]; [11; 11]; [12; 12]]%Z = true /\
+  forallb (alignedb s) [[0; 0]; [1; 3]; [3; 3]; [6; 6]; [10; 10]; [11; 11]; [12; 12]]%Z = true /\
+  orderedb s [[1; 3]; [2; 3]]%Z = false.
 Proof. vm_compute. repeat split; reflexivity. Qed.
